@@ -5,21 +5,30 @@ import glob, json, os, subprocess, sys, time
 sys.path.insert(0, os.path.dirname(__file__))
 import mutmatrix
 os.makedirs('/tmp/mut/results', exist_ok=True)
-only = sys.argv[1:]  # optional list of property ids
+args = sys.argv[1:]
+own_only = '--own' in args  # phase 1: only the check of the property the change was written against
+only = [a for a in args if not a.startswith('--')]  # optional list of property ids
 for meta in sorted(glob.glob('/tmp/mut/C*/out/m[0-9].json')):
     d = os.path.dirname(meta); n = os.path.basename(meta)[1:-5]
     prop = d.split('/')[3]
     if only and prop not in only: continue
     out = f'/tmp/mut/results/{prop}_m{n}.json'
-    if os.path.exists(out): continue
-    r = subprocess.run([sys.executable, os.path.dirname(__file__) + '/verify_mutant.py', d, n], text=True, capture_output=True)
-    try: v = json.loads(r.stdout.strip().splitlines()[-1])
-    except Exception: v = {'confirmed': False, 'error': (r.stdout + r.stderr)[-500:]}
+    old = json.load(open(out)) if os.path.exists(out) else None
+    if old and (own_only or len(old.get('matrix', {})) >= 20): continue
+    if old:
+        v = old['verify']
+    else:
+        r = subprocess.run([sys.executable, os.path.dirname(__file__) + '/verify_mutant.py', d, n], text=True, capture_output=True)
+        try: v = json.loads(r.stdout.strip().splitlines()[-1])
+        except Exception: v = {'confirmed': False, 'error': (r.stdout + r.stderr)[-500:]}
     res = {'property': prop, 'mutant': n, 'verify': v, 'meta': json.load(open(meta))}
     if v.get('confirmed'):
         t = time.time()
-        m = mutmatrix.run(f'{d}/m{n}.diff', mutmatrix.ALL)
-        res['matrix'] = {i: {'rc': rc, 'sigs': sigs[:6]} for (i, rc, sigs) in m} if isinstance(m, list) else m
+        ids = [prop] if own_only else [i for i in mutmatrix.ALL if not (old and i in old.get('matrix', {}))]
+        m = mutmatrix.run(f'{d}/m{n}.diff', ids)
+        res['matrix'] = dict(old.get('matrix', {})) if old else {}
+        if isinstance(m, list):
+            res['matrix'].update({i: {'rc': rc, 'sigs': sigs[:6]} for (i, rc, sigs) in m})
         res['matrix_s'] = round(time.time() - t)
     json.dump(res, open(out, 'w'), indent=1)
     print(prop, n, v.get('confirmed'), {k: x['rc'] for k, x in res.get('matrix', {}).items() if x['rc'] != 0}, flush=True)
